@@ -66,6 +66,21 @@ Inductive pc :=
 Definition plan := nat -> nat -> op -> option eff.
 Definition no_faults : plan := fun _ _ _ => None.
 
+Definition meta_eqb (a b : meta) : bool :=
+  list_eqb pair_eqb (m_chunks a) (m_chunks b) && Bool.eqb (m_ended a) (m_ended b) && Bool.eqb (m_exc a) (m_exc b).
+Definition op_eqb (a b : op) : bool :=
+  match a, b with
+  | OMkTemp, OMkTemp | ORmTemp, ORmTemp | ORmFinal, ORmFinal | ORenameDir, ORenameDir
+  | OUpExc, OUpExc | OOther, OOther => true
+  | OWriteTmp i v, OWriteTmp j w => (i =? j) && (v =? w)
+  | ORenameChunk i, ORenameChunk j => i =? j
+  | OWriteMeta m, OWriteMeta m' => meta_eqb m m'
+  | _, _ => false
+  end.
+(* the plans the harness uses: the first execution of operation o fails with effect e *)
+Definition single_fault (o : op) (e : eff) : plan :=
+  fun nf _ o' => if Nat.eqb nf 0 && op_eqb o' o then Some e else None.
+
 Record cst := mkCst {
   c_pc : pc;
   c_fs : fs;
